@@ -139,6 +139,12 @@ func genFrame(t *rapid.T, label string, real bool) ([]byte, string) {
 		return buildAdd(k == "addconstrained", rapid.Uint32Range(0, 100000).Draw(t, label+"L")), k
 	case "add-short-constraint":
 		// a constrained add whose lifetime constraint is cut short (1..4 bytes missing)
+		if rapid.Bool().Draw(t, label+"Plain") {
+			// a plain add-identity request (code 17) followed by the beginning of a constraint
+			f := buildAdd(false, 0)
+			tail := rapid.SampledFrom([][]byte{{1}, {1, 0}, {1, 0, 0}, {1, 0, 0, 0}, {2, 1}, {2, 1, 0, 0}, {2, 2, 1, 0}}).Draw(t, label+"Tail")
+			return append(f, tail...), k
+		}
 		f := buildAdd(true, rapid.Uint32Range(0, 100000).Draw(t, label+"L"))
 		cut := rapid.IntRange(1, 4).Draw(t, label+"Cut")
 		if len(f) > cut+2 {
